@@ -41,7 +41,7 @@ func crashSpec(spec *RunSpec, i int) *RunSpec {
 	return c
 }
 
-var c11Styles = []string{"plain", "guarded", "loop", "slot", "first", "shorthand"}
+var c11Styles = []string{"plain", "guarded", "loop", "slot", "first", "fallback", "namedslot", "shorthand"}
 
 func c11Edge(style, target string, idx int) string {
 	switch style {
@@ -51,6 +51,10 @@ func c11Edge(style, target string, idx int) string {
 		return fmt.Sprintf(`<div v-for="item in items"><template include="%s"></template></div>`, target)
 	case "slot":
 		return fmt.Sprintf(`<template include="components/Holder.vuego"><template include="%s"></template></template>`, target)
+	case "fallback": // the include sits in the fallback content of a slot nobody fills (evaluated by evalSlot)
+		return fmt.Sprintf(`<slot name="unfilled%d"><template include="%s"></template></slot>`, idx, target)
+	case "namedslot": // the include is named-slot content handed to a component that places the slot once
+		return fmt.Sprintf(`<template include="components/NamedHolder.vuego"><template #x><template include="%s"></template></template></template>`, target)
 	case "shorthand":
 		if strings.HasPrefix(target, "components/Comp") {
 			tag := "comp-" + strings.ToLower(strings.TrimSuffix(strings.TrimPrefix(target, "components/Comp"), ".vuego"))
@@ -70,7 +74,11 @@ func genC11(seed uint64, run int, tier string) *RunSpec {
 	case 4:
 		spec = genC11Layouts(r)
 	case 5:
-		spec = genC11Slots(r)
+		if (run/12)%3 == 0 {
+			spec = genC11Less(r)
+		} else {
+			spec = genC11Slots(r)
+		}
 	case 6:
 		spec = genC11Hostile(r)
 	case 7:
@@ -113,15 +121,15 @@ func c11AddFaults(r *Rand, spec *RunSpec) {
 }
 
 // genC11Includes: include digraph over {page, CompA, CompB, CompC}. For index < 2048 the graph over
-// {page, A, B} is enumerated (9 possible edges => 512 graphs x 5 edge styles); beyond that graphs over 4 nodes are drawn.
+// {page, A, B} is enumerated (9 possible edges => 512 graphs x 7 edge styles); beyond that graphs over 4 nodes are drawn.
 func genC11Includes(r *Rand, index int, tier string) *RunSpec {
 	names := []string{"pages/page.vuego", "components/CompA.vuego", "components/CompB.vuego", "components/CompC.vuego"}
 	nn := 3
 	var bits uint32
 	style := ""
-	if index < 2560 {
+	if index < 3584 {
 		bits = uint32(index % 512)
-		style = c11Styles[(index/512)%5]
+		style = c11Styles[(index/512)%7]
 	} else {
 		nn = 4
 		bits = uint32(r.U64()) & 0xffff
@@ -159,7 +167,10 @@ func genC11Includes(r *Rand, index int, tier string) *RunSpec {
 			// shorthand component tags are only resolved in the top-level template (preProcessNodes); inside an
 			// included component (also when the page itself is included again) the tag is plain markup. A shorthand
 			// edge therefore only makes its target reachable from the top-level page; it is never part of a cycle.
-			if st == "plain" {
+			if st == "plain" || st == "fallback" {
+				// fallback content of a slot nobody fills is evaluated whenever the file is: an unconditional include
+				// edge. Named-slot content is NOT counted: a nested include inherits the outer slot scope
+				// (evalInclude only creates one when there is none), so below the first level the content is not placed.
 				uncond[i] = append(uncond[i], j)
 			}
 			if st == "shorthand" && i == 0 {
@@ -179,6 +190,7 @@ func genC11Includes(r *Rand, index int, tier string) *RunSpec {
 		g.put(names[i], strings.Join(append(firstParts, parts...), "\n"))
 	}
 	g.put("components/Holder.vuego", `<div class="holder"><slot></slot></div>`)
+	g.put("components/NamedHolder.vuego", `<div class="nholder"><slot name="x"></slot></div>`)
 	// an unconditional cycle reachable from the page must produce an error
 	mustErr := false
 	seen := make([]int, nn) // 0 unvisited, 1 on stack, 2 done
@@ -220,7 +232,7 @@ func genC11Layouts(r *Rand) *RunSpec {
 	g := NewGen(r)
 	g.Feat = map[string]bool{}
 	spec := &RunSpec{Family: "c11-layouts"}
-	shape := r.Intn(7)
+	shape := r.Intn(8)
 	mustErr := false
 	lay := func(name, next, body string) {
 		fm := map[string]string{}
@@ -258,6 +270,17 @@ func genC11Layouts(r *Rand) *RunSpec {
 		}
 	case 5: // the page names itself as its layout
 		first = "../pages/page"
+	case 7: // a cycle whose layouts place the content twice: the document doubles on every lap
+		lay2 := func(name, next string) {
+			g.put("layouts/"+name+".vuego", PageFile(`<div v-html="content"></div><div v-html="content"></div>`, map[string]string{"layout": next}))
+		}
+		if r.Bool() {
+			lay2("l0", "l0")
+		} else {
+			lay2("l0", "l1")
+			lay2("l1", "l0")
+		}
+		mustErr = true
 	case 6: // base layout that names itself / the page
 		g.put("layouts/base.vuego", PageFile(`<html><body><div v-html="content"></div></body></html>`, map[string]string{"layout": "base"}))
 		first = ""
@@ -290,6 +313,7 @@ func genC11Slots(r *Rand) *RunSpec {
 		`<ul><li v-for="item in items"><slot name="row"></slot><slot></slot></li></ul><slot name="row"></slot>`,
 		`<div><slot></slot><p><slot></slot></p><slot name="x">fb</slot><slot name="x">fb2</slot></div>`,
 		`<div v-for="item in items"><span v-for="t in item.tags"><slot></slot></span></div>`,
+		`<ul><template v-for="item in items"><slot name="x"></slot></template></ul><div><slot name="row"></slot><slot name="row"></slot></div>`,
 	})
 	g.put("components/Multi.vuego", comp)
 	use := Pick(r, []string{
@@ -299,6 +323,10 @@ func genC11Slots(r *Rand) *RunSpec {
 		`<div v-for="item in items"><template include="components/Multi.vuego" :items="items"><p>a</p><p>b</p></template></div>`,
 		`<template include="components/Multi.vuego" :items="items"><template v-slot:x><u>x1</u><u>x2</u></template><p>a</p><p>b</p></template>`,
 		`<template include="components/Multi.vuego" :items="items"><p>outer</p><slot></slot></template>`,
+		`<template include="components/Multi.vuego" :items="items"><template #row><template v-html="html"></template></template><template #x><template v-html="html"></template><i>x</i></template></template>`,
+		`<template include="components/Multi.vuego" :items="items"><template #row><p v-text="title"></p><template :k="n"><b>{{ k }}</b></template></template></template>`,
+		`<template include="components/Multi.vuego" :items="items"><template #x><template v-html="html"></template></template><template #row><template v-html="html"></template></template></template>`,
+		`<template include="components/Multi.vuego" :items="items"><template #x><template v-html="html"></template></template></template>`,
 		`<template include="components/Multi.vuego" :items="items"><template #row><slot name="row"></slot></template><div><slot></slot></div></template>`,
 		`<template include="components/Multi.vuego"><template include="components/Multi.vuego"><slot></slot><b>inner</b></template></template>`,
 	})
@@ -317,6 +345,51 @@ func genC11Slots(r *Rand) *RunSpec {
 	spec.Ops = []OpSpec{op, op}
 	spec.Kernel = randomKernelSeq(r)
 	spec.Note = "slot content reused: " + comp
+	return spec
+}
+
+// genC11Less: LESS @import graphs through the LESS processor (self import, mutual import, chain, missing file, directory).
+func genC11Less(r *Rand) *RunSpec {
+	g := NewGen(r)
+	g.Feat = map[string]bool{}
+	g.Eng.Less = true
+	spec := &RunSpec{Family: "c11-less"}
+	shape := r.Intn(6)
+	switch shape {
+	case 0:
+		g.put("a.less", "@import \"a.less\";\n.a { color: blue; }\n")
+	case 1:
+		g.put("a.less", "@import \"b.less\";\n.a { color: blue; }\n")
+		g.put("b.less", "@import \"a.less\";\n.b { color: red; }\n")
+	case 2:
+		for i := 0; i < 6; i++ {
+			g.put(fmt.Sprintf("c%d.less", i), fmt.Sprintf("@import \"c%d.less\";\n.c%d { margin: %dpx; }\n", i+1, i, i))
+		}
+		g.put("c6.less", ".end { margin: 0; }\n")
+		g.put("a.less", "@import \"c0.less\";\n")
+	case 3:
+		g.put("a.less", "@import \"missing.less\";\n.a { color: blue; }\n")
+	case 4:
+		g.put("a.less", "@import \"side\";\n@import \"side/x.less\";\n")
+		g.put("side/x.less", "@import \"../a.less\";\n.x { color: green; }\n")
+	case 5:
+		g.put("a.less", "@import \"a.less\";\n@import \"a.less\";\n")
+	}
+	body := "<main>\n<style type=\"text/css+less\">\n@import \"a.less\";\n.x { color: red; }\n</style>\n<p>{{ title }}</p>\n</main>\n"
+	g.put("pages/page.vuego", body)
+	spec.Files = g.FileSpecs(1_700_000_000_000_000_000)
+	spec.Engine = randomEngine(r, g.Eng)
+	entry := Pick(r, Entries)
+	op := OpSpec{Kind: "render", Entry: entry, File: "pages/page.vuego", Data: randomData(r, "zz0zz"), Writer: WriterSpec{FailAt: -1}, Reader: ReaderSpec{FailAfter: -1}}
+	if entry == "RenderString" || entry == "RenderByte" || entry == "RenderReader" {
+		op.Source = body
+	}
+	spec.Ops = []OpSpec{op}
+	spec.Kernel = randomKernelSeq(r)
+	if r.Chance(30) {
+		spec.Faults = []FaultSpec{{Op: 0, N: 1 + r.Intn(8), Kind: Pick(r, faultKinds), Arg: r.Intn(50)}}
+	}
+	spec.Note = fmt.Sprintf("LESS @import graph shape=%d", shape)
 	return spec
 }
 
